@@ -213,3 +213,22 @@ def r8_strip_crate_prefix(text, log):
     if k:
         log.append(("R8", f"`::microscpi::` prefix removed ({k} occurrences)"))
     return new
+
+
+def r12_enumerate(text, log):
+    """R12: `for (i, x) in E.iter().enumerate() { BODY }` -> `let mut i: usize = 0; for x in E.iter() { BODY i = i + 1; }`
+    (Iterator::enumerate yields (0, x0), (1, x1), ...; Verus has no spec for the adapter). The added counter
+    increment cannot overflow for a slice iterator (at most usize::MAX elements); Verus still checks it."""
+    m = re.search(r"for\s*\(\s*([a-z_][a-z0-9_]*)\s*,\s*([a-z_][a-z0-9_]*)\s*\)\s*in\s*(.*?)\.enumerate\(\)\s*\{", text)
+    if not m:
+        log.append(("R12", "not applicable: no `for (i, x) in E.enumerate()` loop"))
+        return text
+    i, x, it = m.group(1), m.group(2), m.group(3)
+    toks = lex(text)
+    # find the opening brace token of this loop and its match
+    ob = next(k for k, t in enumerate(toks) if t.kind == "punct" and t.text == "{" and t.start == m.end() - 1)
+    cb = match_close(toks, ob)
+    new_head = f"let mut {i}: usize = 0;\n        for {x} in {it} {{"
+    edits = [(m.start(), m.end(), new_head), (toks[cb].start, toks[cb].start, f"    {i} = {i} + 1;\n        ")]
+    log.append(("R12", f"for ({i}, {x}) in {it}.enumerate() -> explicit counter {i}"))
+    return apply_edits(text, edits)
